@@ -101,6 +101,15 @@ def origins(F, view, _memo=None, _stack=None):
             if 'GneissError' in fn and sh in ('From::from',):
                 out.add((norm(view.path), 'From::from'))
                 return
+            if sh in ('FnOnce::call_once', 'FnMut::call_mut', 'Fn::call'):
+                # a callback: a local closure is followed, anything else (a boxed user / driver
+                # handler) is an opaque origin — its error is not under the engine's control
+                a0 = e[2][0] if e[2] else None
+                if a0 is not None and a0[0] == 'agg' and a0[1] == '(closure)':
+                    walk(a0, d + 1)
+                else:
+                    out.add((norm(view.path), 'callback-result'))
+                return
             if any(sh == p_ or fn.endswith(p_) for p_ in PASS):
                 for a in e[2]:
                     walk(a, d + 1)
